@@ -20,6 +20,7 @@ type c05path struct {
 	FailRem   bool     `json:"remote_unreachable"`
 	FaultFrom int      `json:"faults_from_event"`
 	Events    []string `json:"events"`
+	Shutdown  bool     `json:"remote_write_interrupted_by_shutdown"`
 }
 
 var c05events = []string{"pub0", "pub1", "pub1-repeat", "pub1-repeat-dup", "pub2", "pub2-repeat", "pub2-repeat-dup", "rel-pending", "rel-completed", "rel-unknown", "idle"}
@@ -70,10 +71,16 @@ func c05paths() []c05path {
 		{"both", false, false}, {"both", true, false}, {"both", false, true}, {"both", true, true}}
 	for _, c := range combos {
 		for _, s := range seqs {
-			out = append(out, c05path{c.pl, c.fl, c.fr, 0, s})
+			out = append(out, c05path{c.pl, c.fl, c.fr, 0, s, false})
 			if vk.Thorough() && (c.fl || c.fr) && len(s) >= 2 {
-				out = append(out, c05path{c.pl, c.fl, c.fr, 1, s})
+				out = append(out, c05path{c.pl, c.fl, c.fr, 1, s, false})
 			}
+		}
+	}
+	// the publishing node is stopped while the remote write of the last event is in flight
+	for _, pl := range []string{"remote", "both"} {
+		for _, s := range [][]string{{"pub1"}, {"pub0", "pub1"}, {"pub2", "rel-pending"}, {"pub1", "pub2", "rel-pending"}} {
+			out = append(out, c05path{pl, false, false, 0, s, true})
 		}
 	}
 	return out
@@ -117,6 +124,7 @@ func TestC05StoreBeforeAck(t *testing.T) {
 					w.FailLog(1, on && p.FailLocal)
 					w.SetUnreachable(1, 2, on && p.FailRem)
 				}
+				shutdownFaulty := func(k int) bool { return p.Shutdown && k == len(p.Events)-1 && has(dest, 2) }
 				type pubEv struct {
 					qos      int32
 					id       int32
@@ -154,6 +162,9 @@ func TestC05StoreBeforeAck(t *testing.T) {
 						setFaults(true)
 						faultsOn = true
 					}
+					if p.Shutdown && k == len(p.Events)-1 {
+						w.ShutdownOnCall(1, true)
+					}
 					w.mu.Lock()
 					log0, rpc0 := len(w.LogEvents), len(w.RPCEvents)
 					w.mu.Unlock()
@@ -176,7 +187,7 @@ func TestC05StoreBeforeAck(t *testing.T) {
 							nextID++
 							e.id = nextID
 						}
-						e.faulty = faultsOn && ((p.FailLocal && has(dest, 1)) || (p.FailRem && has(dest, 2)))
+						e.faulty = (faultsOn && ((p.FailLocal && has(dest, 1)) || (p.FailRem && has(dest, 2)))) || shutdownFaulty(k)
 						e.seqSent = w.Seq()
 						pub.Send(&packet.Publish{Header: &packet.Header{Qos: 1, Dup: strings.HasSuffix(ev, "dup")}, Topic: []byte("t/x"), Payload: []byte(e.payload), MessageId: e.id})
 						pubs = append(pubs, e)
@@ -220,7 +231,7 @@ func TestC05StoreBeforeAck(t *testing.T) {
 						if h == nil {
 							return // infeasible here: no handshake is pending
 						}
-						h.ev.faulty = faultsOn && ((p.FailLocal && has(dest, 1)) || (p.FailRem && has(dest, 2)))
+						h.ev.faulty = (faultsOn && ((p.FailLocal && has(dest, 1)) || (p.FailRem && has(dest, 2)))) || shutdownFaulty(k)
 						pub.Send(&packet.PubRel{Header: &packet.Header{}, MessageId: h.ev.id})
 						h.pending = false
 						h.completed = !h.ev.faulty // a failed forward completes nothing: the client may start over
@@ -267,7 +278,7 @@ func TestC05StoreBeforeAck(t *testing.T) {
 						}
 						perNode[le.Node]++
 					}
-					remoteBlocked := faultsOn && p.FailRem
+					remoteBlocked := (faultsOn && p.FailRem) || shutdownFaulty(k)
 					for _, n := range []uint64{1, 2} {
 						want := 0
 						if has(dest, n) {
